@@ -382,10 +382,11 @@ impl FootprintGuard {
                 !footprint.e_write.iter().any(|k| k.warp_id != warp_id),
                 "FootprintGuard::new: rule '{rule_name}' has cross-warp entries in e_write (expected warp {warp_id:?})"
             );
-            assert!(
-                !footprint.a_read.iter().any(|k| k.owner.warp_id() != warp_id),
-                "FootprintGuard::new: rule '{rule_name}' has cross-warp entries in a_read (expected warp {warp_id:?})"
-            );
+            // `a_read` may legitimately name slots owned by ancestor instances:
+            // `Engine::apply_in_warp` adds every `AttachmentKey` of the descent
+            // chain (Stage B1 law), and those slots live in the parent warps.
+            // They are filtered out below; a rewrite still cannot *read* them
+            // through its own instance's view.
             assert!(
                 !footprint.a_write.iter().any(|k| k.owner.warp_id() != warp_id),
                 "FootprintGuard::new: rule '{rule_name}' has cross-warp entries in a_write (expected warp {warp_id:?})"
